@@ -27,7 +27,7 @@ FUNCTIONS = [
     "strax.utils.apply_selection",
 ]
 BOUNDS = {
-    "quick": "<=2 sources, <=3 chunks per source, <=2 rows per chunk (<=4 rows per source); templates chain / "
+    "quick": "<=2 sources, <=3 chunks per source, <=2 rows per chunk (<=4 rows per source); templates overlap-window (3 windows) / multi-output with a consumer of both outputs / chain / "
              "same-kind merge / multi-output / loop / down-chunking / exhaust; stored subsets of the intermediate "
              "types made under a DIFFERENT symbolic chunking; processors: single-thread, threaded eager, threaded "
              "lazy under 3 canonical schedules; max_messages in {2,4}",
@@ -65,7 +65,41 @@ TEMPLATES = {
     "loop": dict(sources=["ev", "pk"], inter=["ev", "pk"], target="lp"),
     "down": dict(sources=["src"], inter=["dn"], target="md"),
     "exhaust": dict(sources=["src"], inter=["m1"], target="ex"),
+    # both outputs of a multi-output plugin are needed by one consumer; one of them may be stored, the sibling recomputed
+    "multi2": dict(sources=["src"], inter=["sa", "sb"], target="bo"),
+    # overlap-window plugin (window = the two digits: look-back, look-ahead) on disjoint rows; plugin and whole-run
+    # oracle are those of C09, here inside the pipeline variations of this property (processors, stored input)
+    "overlap11": dict(sources=["src"], inter=["src"], target="ov"),
+    "overlap30": dict(sources=["src"], inter=["src"], target="ov"),
+    "overlap03": dict(sources=["src"], inter=["src"], target="ov"),
 }
+
+
+def _win(template):
+    return int(template[-2]), int(template[-1])
+
+
+def P_both(obj, save_when=None):
+    """Consumes both outputs of Split2: per sb row, val = sb.val + (1 if the same row is among the kept sa rows)."""
+    import strax
+
+    class Both(strax.Plugin):
+        provides = ("bo",)
+        depends_on = ("sa", "sb")
+        data_kind = "k_sb"
+        dtype = ctx.dt(ctx.VAL, obj)
+
+        def compute(self, **kw):
+            a, b = kw["k_sa"], kw["k_sb"]
+            r = ctx.new_arr(ctx.VAL, len(b), obj)
+            for q in range(len(b)):
+                r["time"][q], r["endtime"][q], r["id"][q] = b["time"][q], b["endtime"][q], b["id"][q]
+                r["val"][q] = b["val"][q] + sum(1 for p in range(len(a)) if int(a["id"][p]) == int(b["id"][q]))
+            return r
+
+    if save_when is not None:
+        Both.save_when = save_when
+    return Both
 
 
 def build_plugins(template, layouts, obj, thr, save_when=None, rechunk=True):
@@ -85,6 +119,10 @@ def build_plugins(template, layouts, obj, thr, save_when=None, rechunk=True):
         P.append(ctx.P_source("src", "ksrc", layouts["src"], obj, **kw))
         P.append(ctx.P_split2(["sa", "sb"], "src", obj, thr, rechunk_on_save=rechunk, **kw))
         P.append(ctx.P_map("mb", "sb", obj, offset=3, **kw))
+    elif template == "multi2":
+        P.append(ctx.P_source("src", "ksrc", layouts["src"], obj, **kw))
+        P.append(ctx.P_split2(["sa", "sb"], "src", obj, thr, rechunk_on_save=rechunk, **kw))
+        P.append(P_both(obj, **kw))
     elif template == "loop":
         P.append(ctx.P_source("ev", "kev", layouts["ev"], obj, **kw))
         P.append(ctx.P_source("pk", "kpk", layouts["pk"], obj, **kw))
@@ -97,6 +135,12 @@ def build_plugins(template, layouts, obj, thr, save_when=None, rechunk=True):
         P.append(ctx.P_source("src", "ksrc", layouts["src"], obj, **kw))
         P.append(ctx.P_map("m1", "src", obj, rechunk_on_save=rechunk, **kw))
         P.append(ctx.P_exhaust("ex", "m1", obj))
+    elif template.startswith("overlap"):
+        from harness import C09
+
+        wl, wr = _win(template)
+        P.append(ctx.P_source("src", "ksrc", layouts["src"], obj, **kw))
+        P.append(C09.P_overlap("ov", "src", obj, wl, wr))
     else:
         raise ValueError(template)
     return P
@@ -110,6 +154,8 @@ def oracle(template, rows, thr):
         return [dict(id=i, time=t, endtime=e, val2=(e - t + 7) + i) for t, e, i in rows["src"]]
     if template == "multi":
         return [dict(id=i, time=t, endtime=e, val=(e - t) + 3) for t, e, i in rows["src"]]
+    if template == "multi2":
+        return [dict(id=i, time=t, endtime=e, val=(e - t) + ite(e - t >= thr, 1, 0)) for t, e, i in rows["src"]]
     if template == "loop":
         out = []
         for t, e, i in rows["ev"]:
@@ -120,6 +166,11 @@ def oracle(template, rows, thr):
         return [dict(id=i, time=t, endtime=e, val=(e - t) + 1) for t, e, i in rows["src"]]
     if template == "exhaust":
         return [dict(id=i, time=t, endtime=e, tot=len(rows["src"])) for t, e, i in rows["src"]]
+    if template.startswith("overlap"):
+        wl, wr = _win(template)
+        return [dict(id=i, time=t, endtime=e,
+                     n=core.ssum([ite(sand(e2 > t - wl, t2 < e + wr), 1, 0) for (t2, e2, i2) in rows["src"] if i2 != i], 0))
+                for t, e, i in rows["src"]]
 
 
 def check_result(template, chunks, rows, thr, S, E, label):
@@ -197,7 +248,7 @@ def sym_pipeline(template, layout, proc="single", stored=(), stored_layout=None,
     thr = fresh_int("thr", 0, H.T_MAX)
     layouts, st_layouts, rows = {}, {}, {}
     for src in tpl["sources"]:
-        disj = template == "loop" and src == "ev"
+        disj = (template == "loop" and src == "ev") or template.startswith("overlap")
         L = ctx.sym_layout(f"{src}_", layout[src], S, disjoint=disj, E=E)
         layouts[src] = L
         rows[src] = L.rows
@@ -281,6 +332,22 @@ def _grid(tier):
         lay2 += [([2, 1], [1, 2]), ([1, 1, 1], [2, 1]), ([2], [2, 2])]
     for le, lp in lay2:
         g.append(dict(template="loop", layout={"ev": le, "pk": lp}))
+    ovl = (("overlap11", ([1, 1], [2, 1])), ("overlap30", ([2, 1],)), ("overlap03", ([1, 1],))) if tier == "quick" else \
+        (("overlap11", ([1, 1], [2, 1], [1, 2], [1, 1, 1])), ("overlap30", ([2, 1], [1, 2])), ("overlap03", ([1, 1], [2, 1])))
+    for tp, lays in ovl:
+        for l in lays:
+            g.append(dict(template=tp, layout={"src": l}))
+    for l in ([1, 1], [2, 1]):
+        g.append(dict(template="multi2", layout={"src": l}))
+    for stored, lay, slay in ((["sa"], [1, 1], [2]), (["sb"], [2, 1], [1, 2])):
+        g.append(dict(template="multi2", layout={"src": lay}, stored=stored, stored_layout={"src": slay}))
+        for lazy in (True, False):
+            g.append(dict(template="multi2", layout={"src": lay}, stored=stored, stored_layout={"src": slay},
+                          proc="threaded", lazy=lazy, policy="rr", max_messages=4))
+    g.append(dict(template="multi2", layout={"src": [1, 1]}, proc="threaded", lazy=True, policy="lowest"))
+    g.append(dict(template="overlap11", layout={"src": [2, 1]}, stored=["src"], stored_layout={"src": [1, 2]}))
+    g.append(dict(template="overlap11", layout={"src": [1, 1]}, proc="threaded", lazy=True, policy="rr"))
+    g.append(dict(template="overlap30", layout={"src": [2, 1]}, proc="threaded", lazy=False, policy="lowest", max_messages=2))
     # stored subsets made under a different chunking
     sub = [("chain", ["m1"], [2, 1], [1, 2]), ("chain", ["src"], [1, 1, 1], [3]), ("chain", ["src", "m1"], [2, 1], [1, 1, 1]),
            ("merge", ["m1"], [1, 1], [2]), ("merge", ["m2"], [2, 1], [1, 2]), ("merge", ["m1", "m2"], [1, 1, 1], [2, 1]),
